@@ -90,7 +90,9 @@ fn gen_els(r: &mut Rng, allow_panic: bool, must_close: bool) -> Vec<PathEl> {
             1 => 1,
             _ => 1 + r.below(5) as usize,
         };
-        let lead_move = if k == 0 { must_close || !r.chance(1, 8) } else { !(have_start && !must_close && r.chance(1, 5)) };
+        // a later sub-path may start implicitly (no MoveTo): after a ClosePath it continues from the start point of the
+        // sub-path just closed, also in the all-closed mode (seed C02g)
+        let lead_move = if k == 0 { must_close || !r.chance(1, 8) } else { !(have_start && r.chance(1, 5)) };
         if lead_move {
             start = path_point(r, mode);
             els.push(PathEl::MoveTo(start));
@@ -620,6 +622,20 @@ fn law_reverse_path(a: &[f64]) -> Option<(String, String)> {
     None
 }
 
+/// the area of a path is also the sum over the indexed view: `get_seg(ix)` for every element index yields exactly the
+/// segments `Shape::area` integrates (closing lines included, nothing for a ClosePath on a degenerate sub-path; seed C02h)
+fn law_get_seg_sum(a: &[f64]) -> Option<(String, String)> {
+    let els = dec_els(a);
+    let bp = bez(&els);
+    let (mag, n) = path_mag(&els);
+    let tol = (128.0 + 8.0 * n as f64) * EPS * mag;
+    let want = bp.area();
+    let got: f64 = (1..=els.len()).filter_map(|ix| bp.get_seg(ix)).map(|s| s.signed_area()).sum();
+    if !((got - want).abs() <= tol) {
+        return fail("get-seg-sum", format!("{:?}: area {:e}, sum of signed_area over get_seg(1..={}) {:e} (tol {:e})", els, want, els.len(), got, tol));
+    }
+    None
+}
 fn g_affine_closed(r: &mut Rng) -> Vec<f64> {
     let a = gen_affine_det(r);
     let mut v = a.as_coeffs().to_vec();
@@ -916,6 +932,7 @@ fn laws() -> Vec<Law> {
         Law { name: "path_green", gen: g_path, check: law_path_green, weight: 3 },
         Law { name: "reverse", gen: g_any_seg, check: law_reverse, weight: 2 },
         Law { name: "reverse_path", gen: g_closed_path, check: law_reverse_path, weight: 2 },
+        Law { name: "get_seg_sum", gen: g_closed_path, check: law_get_seg_sum, weight: 1 },
         Law { name: "affine_det", gen: g_affine_closed, check: law_affine_det, weight: 3 },
         Law { name: "linear_det_seg", gen: g_linear_seg, check: law_linear_det_seg, weight: 2 },
         Law { name: "split_raise", gen: g_any_seg, check: law_split_raise, weight: 3 },
